@@ -317,20 +317,46 @@ def r4_rest_of_line(ctx):
     ctx.ob(vb.where, f"VCF: everything after the {n_fields} entry columns (FORMAT and genotypes) is fetched verbatim as the rest of the line", ok, f"{consts} / {u(rest) if rest is not None else None}",
            key="C04-R4|vcf-rest")
     fr = ix.func(FB, "TextThroughputExtractor.get_fields_by_range")
-    env = {}
-    for s in linear_body(fr.node):
-        if isinstance(s, ast.Assign) and isinstance(s.targets[0], ast.Name):
-            env[s.targets[0].id] = s.value
-    ok = sym.same(env.get("starts"), f"self._field_starts[:, {fr.params[1]}]") and sym.same(env.get("lens"), "self._entry_ends - starts")
-    subs = [x for x in body_walk(fr.node) if isinstance(x, ast.AugAssign) and u(x.target) == "lens"]
-    g = CFG(fr.node)
-    ok2 = len(subs) == 1 and isinstance(subs[0].op, ast.Sub) and sym.poly(subs[0].value) == sym.Poly.const(1)
-    if ok2:
-        node = [n for n in g.nodes if n.ast is subs[0]][0]
-        facts = set()
-        for t, lab in g.guards(node):
-            facts |= edge_facts(t, lab)
-        ok2 = (fr.params[3], False) in facts
+    # path-wise: the length handed to _extract_data is (record end - start of column k) with the separator kept, and one less without it -- however the steps are spelled
+    ksep = fr.params[3]
+
+    class _Pick(ast.NodeTransformer):
+        def __init__(self, keep):
+            self.keep = keep
+
+        def visit_IfExp(self, n):
+            self.generic_visit(n)
+            if u(n.test) in (ksep, f"not {ksep}"):
+                return n.body if (u(n.test) == ksep) == self.keep else n.orelse
+            return n
+
+    def _walk(stmts, env, keep):
+        import copy
+        stmts = [_Pick(keep).visit(copy.deepcopy(st)) for st in stmts]
+        for st in stmts:
+            if isinstance(st, ast.Assign) and isinstance(st.targets[0], ast.Name):
+                env[st.targets[0].id] = inline_locals(st.value, env)
+            elif isinstance(st, ast.AugAssign) and isinstance(st.target, ast.Name) and st.target.id in env:
+                env[st.target.id] = ast.BinOp(left=env[st.target.id], op=st.op, right=inline_locals(st.value, env))
+            elif isinstance(st, ast.If) and u(st.test) in (ksep, f"not {ksep}"):
+                r = _walk(st.body if (u(st.test) == ksep) == keep else st.orelse, env, keep)
+                if r is not None:
+                    return r
+            elif isinstance(st, ast.Return):
+                return inline_locals(st.value, env)
+            elif isinstance(st, (ast.Assert, ast.Expr)):
+                continue
+            else:
+                raise Unrecognised(f"{fr.where}: statement form not followed: {u(st)[:60]}")
+        return None
+    ok = ok2 = True
+    for keep in (True, False):
+        r = _walk(linear_body(fr.node), {}, keep)
+        good = isinstance(r, ast.Call) and u(r.func) == "self._extract_data" and len(r.args) == 2
+        if good:
+            want_start = f"self._field_starts[:, {fr.params[1]}]"
+            good = sym.same(r.args[1], want_start) and sym.poly(r.args[0]) == sym.poly(sym.parse_expr(f"self._entry_ends - {want_start}" + ("" if keep else " - 1")))
+        ok = ok and good
     ctx.ob(fr.where, "rest of line = from the start of column k to the end of the record, minus the terminator unless the separator is wanted", ok and ok2, "", key="C04-R4|range")
 
 
